@@ -295,7 +295,11 @@ impl<const K: usize> AffTree<K> {
         }
 
         for (label, node) in to_remove {
-            let _ = self.tree.try_remove_child(node, label);
+            // A decision must keep at least one child: without children it would turn into a terminal
+            // holding a predicate, and a partial tree would become defined where it was undefined.
+            if self.tree.contains(node) && self.tree.num_children(node) > 1 {
+                let _ = self.tree.try_remove_child(node, label);
+            }
         }
 
         counter
